@@ -372,3 +372,315 @@ pub fn gen_c04(rng: &mut Rng, tier: Tier) -> NetProgram {
     }
     prog
 }
+
+// ---------------------------------------------------------------- C03 (net level): bursts of same-instant emissions
+
+pub fn gen_c03_net(rng: &mut Rng, tier: Tier) -> NetProgram {
+    let nmod = 1 + rng.small(3) as usize;
+    let mut prog = NetProgram { seed: rng.u64(), ..Default::default() };
+    for i in 0..nmod {
+        prog.modules.push(ModSpec { name: format!("m{i}"), parent: -1, stages: 1, gates: vec![("p".into(), 2), ("solo".into(), 1)], panic_at: 255, ..Default::default() });
+    }
+    prog.order = (0..nmod as u32).collect();
+    for i in 0..nmod {
+        let j = (i + 1) % nmod;
+        if i != j && !(nmod == 2 && i == 1) {
+            prog.links.push(Link { am: i as u32, ag: 1, bm: j as u32, bg: 0, flip: rng.chance(1, 2), chan: None });
+        }
+    }
+    // a small menu of delays so that many emissions land on the same instants
+    let unit = *rng.pick(&[1u64, 1_000, 2_500_000, 1_000_000_000]);
+    let menu: Vec<u64> = (0..1 + rng.below(4)).map(|k| k * unit).collect();
+    let max_burst = if tier == Tier::Thorough { 160 } else { 100 };
+    for i in 0..nmod {
+        let nbeats = 1 + rng.small(4) as usize;
+        let mut t = *rng.pick(&menu);
+        for _ in 0..nbeats {
+            let burst = if rng.chance(1, 6) { 20 + rng.usize(max_burst - 20) } else { 1 + rng.small(12) as usize };
+            let mut acts = Vec::new();
+            for _ in 0..burst {
+                let d = *rng.pick(&menu);
+                acts.push(if rng.chance(1, 2) { Act::SelfMsg { delay_ns: d } } else { Act::Send { gate: rng.below(3) as u32, delay_ns: d, body: 0 } });
+            }
+            prog.modules[i].beats.push(Beat { at_ns: t, acts });
+            t += *rng.pick(&menu);
+        }
+        prog.modules[i].chained = rng.chance(1, 2);
+    }
+    prog
+}
+
+// ---------------------------------------------------------------- fault scenarios: common base
+
+/// 2..6 modules wired with direct links (each module owns only endpoint gates), open-loop traffic on scripted timers
+fn base_model(rng: &mut Rng, nmod: usize, max_beats: u64, chan_prob: (u64, u64), bodies: u8) -> NetProgram {
+    let mut prog = NetProgram { seed: rng.u64(), ..Default::default() };
+    for i in 0..nmod {
+        prog.modules.push(ModSpec { name: format!("m{i}"), parent: -1, stages: 1 + rng.small(2) as u8, gates: vec![("p".into(), 4)], panic_at: 255, ..Default::default() });
+    }
+    prog.order = (0..nmod as u32).collect();
+    let mut used: Vec<Vec<bool>> = vec![vec![false; 4]; nmod];
+    let nlinks = nmod + rng.small(nmod as u64) as usize;
+    for _ in 0..nlinks {
+        let a = rng.usize(nmod);
+        let mut b = rng.usize(nmod);
+        if a == b {
+            b = (a + 1) % nmod;
+        }
+        let (Some(ga), Some(gb)) = (used[a].iter().position(|u| !u), used[b].iter().position(|u| !u)) else { continue };
+        if a == b {
+            continue;
+        }
+        used[a][ga] = true;
+        used[b][gb] = true;
+        let chan = if rng.chance(chan_prob.0, chan_prob.1) {
+            Some(Chan { bitrate: *rng.pick(&[0u64, 1_000_000, 100_000_000]), latency_ns: *rng.pick(&[0u64, 1_000_000, 200_000_000]), jitter_ns: 0, queue: -1 })
+        } else {
+            None
+        };
+        prog.links.push(Link { am: a as u32, ag: ga as u32, bm: b as u32, bg: gb as u32, flip: rng.chance(1, 2), chan });
+    }
+    for i in 0..nmod {
+        let nb = rng.small(max_beats) as usize;
+        let mut t = rng.below(4) * 250_000_000;
+        for _ in 0..nb {
+            let mut acts = Vec::new();
+            for _ in 0..1 + rng.small(2) {
+                let g = rng.below(4) as u32;
+                acts.push(Act::Send { gate: g, delay_ns: if rng.chance(1, 4) { rng.below(4) * 250_000_000 } else { 0 }, body: if bodies <= 1 { 1 } else { rng.below(u64::from(bodies)) as u8 } });
+            }
+            prog.modules[i].beats.push(Beat { at_ns: t, acts });
+            t += rng.below(5) * 250_000_000 + if rng.chance(1, 3) { 0 } else { SEC };
+        }
+        prog.modules[i].chained = rng.chance(1, 3);
+    }
+    prog
+}
+
+// ---------------------------------------------------------------- C09
+
+pub fn gen_c09(rng: &mut Rng, tier: Tier) -> NetProgram {
+    let nmod = 2 + rng.small(4) as usize;
+    let mut prog = base_model(rng, nmod, if tier == Tier::Thorough { 14 } else { 8 }, (1, 2), 1);
+    // a transit module now and then: m0.p[3] -- mid.t[0] , mid.t[1] -- m1.p[3] (messages pass through gates owned by `mid`)
+    if rng.chance(1, 2) && nmod >= 2 {
+        let mid = prog.modules.len();
+        prog.modules.push(ModSpec { name: "mid".into(), parent: -1, stages: 1, gates: vec![("t".into(), 2)], panic_at: 255, ..Default::default() });
+        prog.order.push(mid as u32);
+        let a = 0u32;
+        let b = 1u32;
+        // use fresh gates so the chain is exactly a - mid - b
+        prog.modules[0].gates.push(("via".into(), 1));
+        prog.modules[1].gates.push(("via".into(), 1));
+        let ch = |rng: &mut Rng| if rng.chance(1, 2) { Some(Chan { bitrate: 0, latency_ns: *rng.pick(&[1_000_000u64, 300_000_000]), jitter_ns: 0, queue: -1 }) } else { None };
+        let c1 = ch(rng);
+        let c2 = ch(rng);
+        prog.links.push(Link { am: a, ag: 4, bm: mid as u32, bg: 0, flip: rng.chance(1, 2), chan: c1 });
+        prog.links.push(Link { am: mid as u32, ag: 1, bm: b, bg: 4, flip: rng.chance(1, 2), chan: c2 });
+        for m in [0usize, 1] {
+            for bt in &mut prog.modules[m].beats {
+                if rng.chance(1, 2) {
+                    bt.acts.push(Act::Send { gate: 4, delay_ns: 0, body: 1 });
+                }
+            }
+        }
+    }
+    for l in &mut prog.links {
+        if let Some(c) = &mut l.chan {
+            c.bitrate = 0; // latency-only: what a busy channel does is C07's subject
+        }
+    }
+    // faults: shutdown / shutdown-and-restart, attached to a scripted timer or to the n-th receive
+    let nvictims = 1 + rng.small(2) as usize;
+    let total = prog.modules.len();
+    for _ in 0..nvictims {
+        let v = rng.usize(total);
+        let restart: i64 = match rng.below(5) {
+            0 => -1,
+            1 => 0,
+            2 => (rng.below(4) * 250_000_000) as i64,
+            _ => (rng.below(6) * SEC / 2) as i64 + 1,
+        };
+        let act = Act::Shutdown { restart, at: rng.chance(1, 2) };
+        if rng.chance(2, 3) && !prog.modules[v].beats.is_empty() {
+            let bi = rng.usize(prog.modules[v].beats.len());
+            let pos = rng.usize(prog.modules[v].beats[bi].acts.len() + 1);
+            prog.modules[v].beats[bi].acts.insert(pos, act);
+        } else if rng.chance(1, 2) {
+            prog.modules[v].rx.push(RxRule { nth: 1 + rng.below(4) as u32, act });
+        } else {
+            let at = rng.below(12) * 250_000_000;
+            prog.modules[v].beats.push(Beat { at_ns: at, acts: vec![act] });
+            prog.modules[v].beats.sort_by_key(|b| b.at_ns);
+        }
+    }
+    for m in &mut prog.modules {
+        m.tasks = crate::asy::gen_tasks_c09(rng);
+    }
+    prog
+}
+
+// ---------------------------------------------------------------- C13
+
+pub fn gen_c13(rng: &mut Rng, tier: Tier) -> NetProgram {
+    let nmod = 2 + rng.small(4) as usize;
+    let mut prog = base_model(rng, nmod, if tier == Tier::Thorough { 14 } else { 8 }, (1, 3), 3);
+    let nvictims = 1 + rng.small(2) as usize;
+    for _ in 0..nvictims {
+        let v = rng.usize(nmod);
+        prog.modules[v].catching = rng.chance(1, 2);
+        match rng.below(6) {
+            0 => prog.modules[v].panic_at = rng.below(u64::from(prog.modules[v].stages)) as u8,
+            1 => prog.modules[v].panic_at = 200,
+            2 | 3 if !prog.modules[v].beats.is_empty() => {
+                let bi = rng.usize(prog.modules[v].beats.len());
+                let pos = rng.usize(prog.modules[v].beats[bi].acts.len() + 1);
+                prog.modules[v].beats[bi].acts.insert(pos, Act::Panic);
+            }
+            _ => prog.modules[v].rx.push(RxRule { nth: 1 + rng.below(4) as u32, act: Act::Panic }),
+        }
+    }
+    // a victim's delayed sends would be dropped at their exit time (the owner of the sending gate is inactive then),
+    // which "merely fallen silent" does not define: victims send immediately only
+    for m in &mut prog.modules {
+        let is_victim = m.panic_at != 255 || m.rx.iter().any(|r| matches!(r.act, Act::Panic)) || m.beats.iter().any(|b| b.acts.iter().any(|a| matches!(a, Act::Panic)));
+        if is_victim {
+            for b in &mut m.beats {
+                for a in &mut b.acts {
+                    if let Act::Send { delay_ns, .. } = a {
+                        *delay_ns = 0;
+                    }
+                }
+            }
+        }
+    }
+    for m in &mut prog.modules {
+        m.tasks = crate::asy::gen_tasks_c13(rng);
+    }
+    prog
+}
+
+// ---------------------------------------------------------------- C16
+
+pub fn gen_c16(rng: &mut Rng, tier: Tier) -> NetProgram {
+    let nmod = 2 + rng.small(3) as usize;
+    let mut prog = base_model(rng, nmod, if tier == Tier::Thorough { 16 } else { 10 }, (2, 3), crate::bodies::N_BODIES);
+    // lossy channels: busy Drop, byte-bounded queues
+    for l in &mut prog.links {
+        if let Some(c) = &mut l.chan {
+            c.bitrate = *rng.pick(&[10_000u64, 1_000_000, 100_000_000]);
+            c.queue = *rng.pick(&[-2i64, -1, 0, 200, 1200]);
+        }
+    }
+    for m in &mut prog.modules {
+        let n = 1 + rng.small(6) as usize;
+        m.rx_ops = (0..n).map(|_| rng.below(7) as u8).collect();
+        // bursts, so that busy channels and full queues really lose messages
+        for b in &mut m.beats {
+            if rng.chance(1, 2) {
+                let extra = 1 + rng.small(4) as usize;
+                for _ in 0..extra {
+                    if let Some(Act::Send { gate, .. }) = b.acts.first().cloned() {
+                        b.acts.push(Act::Send { gate, delay_ns: 0, body: rng.below(u64::from(crate::bodies::N_BODIES)) as u8 });
+                    }
+                }
+            }
+        }
+    }
+    // consume-mode elements also apply body operations
+    if rng.chance(1, 3) {
+        prog.gstack.push(PeSpec { mode: 2, m: 1 + rng.below(3) as u32, r: rng.below(3) as u32, send_hook: 0, gate: 0 });
+    }
+    // faults that lose messages elsewhere: shutdown of a receiver, a panic while holding a message, a limit stop
+    match rng.below(6) {
+        0 => {
+            let v = rng.usize(nmod);
+            prog.modules[v].rx.push(RxRule { nth: 1 + rng.below(3) as u32, act: Act::Shutdown { restart: if rng.chance(1, 2) { -1 } else { (rng.below(4) * SEC / 2) as i64 }, at: false } });
+        }
+        1 => {
+            let v = rng.usize(nmod);
+            prog.modules[v].rx.push(RxRule { nth: 1 + rng.below(3) as u32, act: Act::Panic });
+            prog.modules[v].catching = rng.chance(1, 2);
+        }
+        2 | 3 => prog.max_events = 1 + rng.below(60),
+        _ => {}
+    }
+    prog.drop_order = rng.below(3) as u8;
+    prog
+}
+
+// ---------------------------------------------------------------- C20
+
+pub fn gen_c20(rng: &mut Rng, tier: Tier) -> NetProgram {
+    let nmod = 1 + rng.small(5) as usize;
+    let mut prog = base_model(rng, nmod, if tier == Tier::Thorough { 12 } else { 7 }, (2, 3), 6);
+    // parent/child trees
+    for i in 1..nmod {
+        if rng.chance(1, 2) {
+            prog.modules[i].parent = rng.below(i as u64) as i32;
+        }
+    }
+    // backlog: slow channels with queues
+    for l in &mut prog.links {
+        if let Some(c) = &mut l.chan {
+            if rng.chance(1, 2) {
+                c.bitrate = *rng.pick(&[1_000u64, 10_000, 1_000_000]);
+                c.queue = *rng.pick(&[-1i64, -1, 5000, -2]);
+            }
+        }
+    }
+    for m in &mut prog.modules {
+        for b in &mut m.beats {
+            if rng.chance(1, 2) {
+                if let Some(Act::Send { gate, .. }) = b.acts.first().cloned() {
+                    for _ in 0..1 + rng.small(3) {
+                        b.acts.push(Act::Send { gate, delay_ns: 0, body: 1 + rng.below(5) as u8 });
+                    }
+                }
+            }
+        }
+    }
+    // a ring of transit gates (all-transit cycle) on extra gates
+    if nmod >= 3 && rng.chance(1, 3) {
+        for m in 0..3 {
+            prog.modules[m].gates.push(("ring".into(), 2));
+        }
+        for m in 0..3u32 {
+            prog.links.push(Link { am: m, ag: 5, bm: (m + 1) % 3, bg: 4, flip: rng.chance(1, 2), chan: if rng.chance(1, 2) { Some(Chan { bitrate: 1000, latency_ns: 1000, jitter_ns: 0, queue: -1 }) } else { None } });
+        }
+    }
+    // elements hold tokens too
+    for _ in 0..rng.small(2) {
+        prog.gstack.push(PeSpec { mode: rng.below(3) as u8, m: 1 + rng.below(3) as u32, r: 0, send_hook: 0, gate: 0 });
+    }
+    if rng.chance(1, 3) {
+        let v = rng.usize(nmod);
+        prog.modules[v].pes.push(PeSpec::default());
+    }
+    // shut-down / restarted modules, modules that panic
+    if rng.chance(1, 3) {
+        let v = rng.usize(nmod);
+        let restart = if rng.chance(1, 2) { -1 } else { (rng.below(4) * SEC / 2) as i64 };
+        if let Some(b) = prog.modules[v].beats.first_mut() {
+            b.acts.push(Act::Shutdown { restart, at: false });
+        }
+    }
+    if rng.chance(1, 5) {
+        let v = rng.usize(nmod);
+        prog.modules[v].rx.push(RxRule { nth: 1 + rng.below(3) as u32, act: Act::Panic });
+        prog.modules[v].catching = rng.chance(1, 2);
+    }
+    // stopping point
+    match rng.below(8) {
+        0 => prog.end_mode = 1,
+        1 => prog.end_mode = 2,
+        2 | 3 => prog.max_events = 1 + rng.below(40),
+        4 => prog.max_time_ns = rng.below(8) * SEC / 2 + 1,
+        _ => {}
+    }
+    prog.drop_order = rng.below(3) as u8;
+    for m in &mut prog.modules {
+        m.tasks = crate::asy::gen_tasks_c20(rng);
+    }
+    prog
+}
